@@ -608,6 +608,22 @@ fn c15_header_parse_of_write_ext4() {
     assert!(pe.profile == h.extension.as_ref().unwrap().profile && pe.data[..] == e[..]);
     core::mem::forget(p); core::mem::forget(h);
 }
+/// C05 / C15: SRTP authenticates the header as RE-MARSHALLED from the parsed struct, so for every header that parse
+/// accepts, write_to(parse(raw)) must be raw itself — otherwise two different wire headers (e.g. a flipped version
+/// bit) authenticate as one. Every 12-octet header without CSRC list and extension (all other bits symbolic).
+#[kani::proof]
+#[kani::unwind(14)]
+fn c05_header_reencode_is_identity_12() {
+    let raw: [u8; 12] = kani::any();
+    kani::assume(raw[0] & 0x1F == 0);
+    let mut cur: &[u8] = &raw[..];
+    if let Ok((h, padding)) = RtpHeader::parse(&mut cur) {
+        let mut o = [0u8; 12];
+        h.write_to(padding, &mut o[..]);
+        assert!(o == raw);
+        core::mem::forget(h);
+    }
+}
 /// C07: RtpHeader::parse is total on every byte string of the stated length (CSRC count, X bit,
 /// extension length all symbolic)
 macro_rules! hdr_total {
